@@ -30,23 +30,29 @@ Lemma poploop_handoff t : forall ws e k, c_waiters k = ws ->
     e_rel e' = e_rel e /\ e_enq e' = e_enq e.
 Proof.
   set (run := fun e0 k0 => exec release_loop_body t e0 k0).
-  assert (Hrun : forall x f rl q k,
+  (* all that is used of the loop body: a cancelled entry is skipped (by `continue` or by falling through), a live
+     one becomes the owner, its future is resolved and release() returns *)
+  assert (Hrun : forall x f rl q k, exists oc, (oc = OContinue \/ oc = ONext) /\
     run (mkenv (Some x) (Some f) false rl q) k =
-    if is_fcancelled (c_futs k f) then (mkenv (Some x) (Some f) false rl q, k, OContinue)
+    if is_fcancelled (c_futs k f) then (mkenv (Some x) (Some f) false rl q, k, oc)
     else (mkenv (Some x) (Some f) false rl q,
           mkc (c_fast k) (Some x) (c_waiters k) (upd (c_futs k) f FSet) (c_nfut k), OReturn)).
-  { intros x f rl q k. unfold run, release_loop_body. cbn. destruct (c_futs k f); reflexivity. }
+  { intros x f rl q k. unfold run, release_loop_body. cbn.
+    destruct (c_futs k f); cbn; first [ exists OContinue; split; [left|]; reflexivity
+                                      | exists ONext; split; [right|]; reflexivity ]. }
   clearbody run.
   induction ws as [|[x f] r IH]; intros e k Hw.
   - exists e, ONext. cbn. destruct k; cbn in *; subst. repeat split.
-  - cbn [poploop handoff]. rewrite Hrun. unfold set_waiters. cbn [c_futs c_fast c_owner c_nfut c_waiters].
+  - cbn [poploop handoff].
+    destruct (Hrun x f (e_rel e) (e_enq e) (set_waiters k r)) as (oc & Hoc & Hr'). rewrite Hr'. clear Hr'.
+    unfold set_waiters. cbn [c_futs c_fast c_owner c_nfut c_waiters].
     destruct (c_futs k f) eqn:Ef; cbn [is_fcancelled].
     + eexists _, OReturn. repeat split.
     + eexists _, OReturn. repeat split.
-    + rewrite wl_eqb_refl.
-      destruct (IH (mkenv (Some x) (Some f) false (e_rel e) (e_enq e))
+    + destruct (IH (mkenv (Some x) (Some f) false (e_rel e) (e_enq e))
                    (mkc (c_fast k) (c_owner k) r (c_futs k) (c_nfut k)) eq_refl) as (e' & o & Hex & Ho & Hr & Hq).
-      exists e', o. cbn in Hex, Ho, Hr, Hq. rewrite Hex. repeat split; assumption.
+      exists e', o. cbn in Hex, Ho, Hr, Hq.
+      destruct Hoc as [-> | ->]; rewrite wl_eqb_refl, Hex; repeat split; assumption.
 Qed.
 
 Lemma exec_release t e k : exists e' o,
